@@ -580,6 +580,8 @@ def check_property(prop, tier, seed, only=None):
     logdir = os.path.join(VERIF, "logs", pid)
     shutil.rmtree(logdir, ignore_errors=True)
     os.makedirs(logdir, exist_ok=True)
+    if only is None:
+        shutil.rmtree(os.path.join(VERIF, "replays", pid), ignore_errors=True)
     steps = []
     out_lines = []
     violations = []
